@@ -233,6 +233,7 @@ func writeEvidenceFile(out *CheckOutcome, plan *PropPlan, tier string, seed int,
 		"covers_satisfiable":          nCoverOK,
 		"known_findings":              knownHit,
 		"undecided":                   out.Undecided,
+		"deferred_to_thorough_tier":   out.ThoroughOnly,
 		"unverified_parts_of_property": plan.Unverified,
 		"explanation": "Contract-based deductive verification: obligations are weakest-precondition style verification conditions generated by govc from the go/ssa form of the real functions in /repo and the //@ contracts in zz_verif_contracts.go; each is discharged by an SMT solver for all inputs. " + plan.Bounded,
 	}
